@@ -177,6 +177,51 @@ Definition subset_votes (votes subset : val) : res val :=
                else Ok a) d (Ok [])
   >>= fun r => Ok (VDict r).
 
+(* ---- the same two parts stated DECLARATIVELY (the spec side of the composition theorem uses these).
+   VoteTotals: every candidate, in the order of first appearance, with the sum of its counts over all constituencies.
+   SubsettedVotes(SimpleSubsetter): the votes filtered to the candidates of the subset.
+   Both on well-formed values (integer counts; for the filter: no key twice, the subset a list / Tie / dictionary); on any
+   other value the answer is whatever the code answers (its exception) - Proofs/WrapParts_proofs.v shows that the code-shaped
+   definitions above compute exactly these on well-formed values, hence the two agree on EVERY value. *)
+Definition is_int (v : val) : bool := match v with VInt _ => true | _ => false end.
+Definition getz (v : val) : Z := match v with VInt z => z | _ => 0 end.
+Definition int_dict (d : dict) : bool := forallb (fun kv => is_int (snd kv)) d.
+Fixpoint nodup_keys (d : dict) : bool :=
+  match d with [] => true | (k, _) :: t => negb (dmem t k) && nodup_keys t end.
+Definition nested_int (d : dict) : bool :=
+  forallb (fun kv => match snd kv with VDict dv => int_dict dv | _ => false end) d.
+Definition entries (d : dict) : list (key * val) :=
+  flat_map (fun kv => match snd kv with VDict dv => dv | _ => [] end) d.
+Definition memk (k : key) (ks : list key) : bool := existsb (key_eqb k) ks.
+Definition keys_first (es : list (key * val)) : list key :=
+  fold_left (fun ks kv => if memk (fst kv) ks then ks else ks ++ [fst kv]) es [].
+Definition total_of (es : list (key * val)) (k : key) : Z :=
+  fold_left (fun a kv => if key_eqb (fst kv) k then a + getz (snd kv) else a) es 0.
+Definition totals_table (es : list (key * val)) : dict :=
+  map (fun k => (k, VInt (total_of es k))) (keys_first es).
+Definition totals_s (votes : val) : res val :=
+  match votes with
+  | VDict d => if nested_int d then Ok (VDict (totals_table (entries d))) else vote_totals votes
+  | _ => vote_totals votes
+  end.
+
+Definition mem_b (subset : val) (k : key) : bool :=
+  match subset with
+  | VList l => existsb (fun x => match x with VKey k' => key_eqb k' k | _ => false end) l
+  | VKey (KT t) => match k with KC c => existsb (Pos.eqb c) t | KT _ => false end
+  | VDict d => dmem d k
+  | _ => false
+  end.
+Definition subset_kind (s : val) : bool :=
+  match s with VList _ | VKey (KT _) | VDict _ => true | _ => false end.
+Definition subset_s (votes subset : val) : res val :=
+  match votes with
+  | VDict d => if int_dict d && nodup_keys d && subset_kind subset
+               then Ok (VDict (filter (fun kv => mem_b subset (fst kv)) d))
+               else subset_votes votes subset
+  | _ => subset_votes votes subset
+  end.
+
 (* type(x)() *)
 Definition empty_like (v : val) : res val :=
   match v with
@@ -411,13 +456,14 @@ Section Run.
 
   (* ================================================================ helpers of both semantics *)
   (* Conditioned._sum_party_votes *)
-  Fixpoint sum_party (d : nat) (v : val) : res val :=
+  Fixpoint sum_party_g (tot : val -> res val) (d : nat) (v : val) : res val :=
     match d with
     | O => Ok v
     | S d' => as_dict v >>= fun dd =>
-              map_res (fun kv => sum_party d' (snd kv) >>= fun x => Ok (fst kv, x)) dd >>= fun dd' =>
-              vote_totals (VDict dd')
+              map_res (fun kv => sum_party_g tot d' (snd kv) >>= fun x => Ok (fst kv, x)) dd >>= fun dd' =>
+              tot (VDict dd')
     end.
+  Definition sum_party := sum_party_g vote_totals.
   (* Conditioned._elim_party_votes *)
   Fixpoint elim_party (d : nat) (v ne : val) : res val :=
     match d with
@@ -478,9 +524,10 @@ Section Run.
     end.
 
   (* ByParty: seats of one party disaggregated to constituencies *)
-  Definition party_votes (votes : dict) (party : key) : res val :=
-    map_res (fun kv => subset_votes (snd kv) (VList [VKey party]) >>= as_dict >>= sum_values >>= fun s => Ok (fst kv, s))
+  Definition party_votes_g (sub : val -> val -> res val) (votes : dict) (party : key) : res val :=
+    map_res (fun kv => sub (snd kv) (VList [VKey party]) >>= as_dict >>= sum_values >>= fun s => Ok (fst kv, s))
             votes >>= fun r => Ok (VDict r).
+  Definition party_votes := party_votes_g subset_votes.
   Definition party_slice (nested : val) (party : key) : res val :=
     as_dict nested >>= fun d =>
     map_res (fun kv => as_dict (snd kv) >>= fun cg => Ok (fst kv, dget cg party)) d >>= fun r =>
@@ -584,26 +631,27 @@ Section Run.
     add_val adj drop >>= fun x => sub_val x n.
 
   (* tie replacement loop of TieBreaking.evaluate; [brk sub n] runs the tiebreaker *)
-  Definition break_ties (brk : val -> val -> res val) (votes main : val) : res val :=
+  Definition break_ties_g (sub : val -> val -> res val) (brk : val -> val -> res val) (votes main : val) : res val :=
     match main with
     | VList l =>
         if existsb (fun x => match x with VKey k => is_tie k | _ => false end) l then
           collect_ties_sel l >>= fun ties =>
           fold_left (fun acc tn => acc >>= fun cur =>
-                       subset_votes votes (VKey (fst tn)) >>= fun sub =>
-                       brk sub (snd tn) >>= iter_val >>= fun repl => replace_sel cur (fst tn) repl)
+                       sub votes (VKey (fst tn)) >>= fun sv =>
+                       brk sv (snd tn) >>= iter_val >>= fun repl => replace_sel cur (fst tn) repl)
                     ties (Ok l) >>= fun r => Ok (VList r)
         else Ok main
     | VDict d =>
         if existsb (fun kv => is_tie (fst kv)) d then
           collect_ties_distr d >>= fun ties =>
           fold_left (fun acc tn => acc >>= fun cur =>
-                       subset_votes votes (VKey (fst tn)) >>= fun sub =>
-                       brk sub (snd tn) >>= iter_val >>= fun repl => replace_distr cur (fst tn) repl)
+                       sub votes (VKey (fst tn)) >>= fun sv =>
+                       brk sv (snd tn) >>= iter_val >>= fun repl => replace_distr cur (fst tn) repl)
                     ties (Ok d) >>= fun r => Ok (VDict r)
         else Ok main
     | _ => raise E_TYPE
     end.
+  Definition break_ties := break_ties_g subset_votes.
 
   (* ================================================================ run_impl : the code *)
   Definition call0 : pargs := PA [] kw_none.
@@ -822,11 +870,11 @@ Section Run.
     | Cond el e d =>
         accept sig_cond sa >>= fun b =>
         let prev := sa_get b KPrev in
-        sum_party d votes >>= fun summed_votes =>
-        sum_party d prev >>= fun summed_prev =>
+        sum_party_g totals_s d votes >>= fun summed_votes =>
+        sum_party_g totals_s d prev >>= fun summed_prev =>
         run_spec el summed_votes (if takes el KPrev then only KPrev summed_prev else kw_none) >>= fun passed =>
         (* the votes restricted, at the nesting depth of the ballots, to the candidates passed *)
-        map_depth d (fun v => subset_votes v passed) votes >>= fun restricted =>
+        map_depth d (fun v => subset_s v passed) votes >>= fun restricted =>
         run_spec e restricted
           (kset (kset (b_kwargs b) KSeats (if takes e KSeats then given (sa_get b KSeats) else None))
                 KPrev (if takes e KPrev then Some prev else None))
@@ -896,11 +944,11 @@ Section Run.
         run_spec e votes (sa_npm total (sa_get b KPrev) (sa_get b KMax))
     | ByParty ov al =>
         accept sig_constit sa >>= fun b =>
-        vote_totals votes >>= fun overall_votes =>
+        totals_s votes >>= fun overall_votes =>
         run_spec ov overall_votes (kset kw_none KSeats (given (sa_get b KSeats))) >>= as_dict >>= fun overall_result =>
         as_dict votes >>= fun dvs =>
         fold_left (fun acc ps => acc >>= fun results =>
-                     party_votes dvs (fst ps) >>= fun pv =>
+                     party_votes_g subset_s dvs (fst ps) >>= fun pv =>
                      (if takes al KPrev then
                         party_slice (sa_get b KPrev) (fst ps) >>= fun pp =>
                         party_slice (sa_get b KMax) (fst ps) >>= fun pm =>
@@ -910,11 +958,11 @@ Section Run.
         Ok (VDict (fill_constituencies results dvs))
     | ByPartyS ov =>
         accept sig_constit sa >>= fun b =>
-        vote_totals votes >>= fun overall_votes =>
+        totals_s votes >>= fun overall_votes =>
         run_spec ov overall_votes (kset kw_none KSeats (given (sa_get b KSeats))) >>= as_dict >>= fun overall_result =>
         as_dict votes >>= fun dvs =>
         fold_left (fun acc ps => acc >>= fun results =>
-                     party_votes dvs (fst ps) >>= fun pv =>
+                     party_votes_g subset_s dvs (fst ps) >>= fun pv =>
                      (if takes ov KPrev then
                         party_slice (sa_get b KPrev) (fst ps) >>= fun pp =>
                         party_slice (sa_get b KMax) (fst ps) >>= fun pm =>
@@ -936,7 +984,7 @@ Section Run.
            end) rs svs elected0 >>= fun r => Ok (VDict r)
     | TieBr m br =>
         run_spec m votes sa >>= fun main =>
-        break_ties (fun sub n => run_spec br sub (only KSeats n)) votes main
+        break_ties_g subset_s (fun sub n => run_spec br sub (only KSeats n)) votes main
     | PListC p =>
         accept sig_plist sa >>= fun b =>
         run_spec p votes (kset (b_kwargs b) KSeats (Some (sa_get b KSeats))) >>= as_dict >>= fun party_result =>
